@@ -102,7 +102,7 @@ def values(draw, kind, kw):
         return draw(gens.price())
     v = draw(gens.float15(max_exp=14))
     if kind == "percentage" and abs(v) >= 1e13:
-        v = v / 1000
+        v = float("%.14e" % (v / 1000))   # keep the quotient at 15 significant digits
     return v
 
 
